@@ -23,10 +23,13 @@ struct Run {
 		UV_MARK("posit %u %u binary %llx %llx", nbits, es, (unsigned long long)a, (unsigned long long)b);
 		P pa = mk(a), pb = mk(b);
 		if (g_arith) {
-		std::printf("posit %u %u add %llx %llx => %llx\n", nbits, es, (unsigned long long)a, (unsigned long long)b, (unsigned long long)enc(pa + pb));
-		std::printf("posit %u %u sub %llx %llx => %llx\n", nbits, es, (unsigned long long)a, (unsigned long long)b, (unsigned long long)enc(pa - pb));
-		std::printf("posit %u %u mul %llx %llx => %llx\n", nbits, es, (unsigned long long)a, (unsigned long long)b, (unsigned long long)enc(pa * pb));
-		std::printf("posit %u %u div %llx %llx => %llx\n", nbits, es, (unsigned long long)a, (unsigned long long)b, (unsigned long long)enc(pa / pb));
+		// equal encodings: ONE object on both sides (x op= x) — the result must not depend on aliasing
+		auto self = [&](int op) { P t = pa; switch (op) { case 0: t += t; break; case 1: t -= t; break; case 2: t *= t; break; default: t /= t; } return t; };
+		const bool same = (a == b);
+		std::printf("posit %u %u add %llx %llx => %llx\n", nbits, es, (unsigned long long)a, (unsigned long long)b, (unsigned long long)enc(same ? self(0) : pa + pb));
+		std::printf("posit %u %u sub %llx %llx => %llx\n", nbits, es, (unsigned long long)a, (unsigned long long)b, (unsigned long long)enc(same ? self(1) : pa - pb));
+		std::printf("posit %u %u mul %llx %llx => %llx\n", nbits, es, (unsigned long long)a, (unsigned long long)b, (unsigned long long)enc(same ? self(2) : pa * pb));
+		std::printf("posit %u %u div %llx %llx => %llx\n", nbits, es, (unsigned long long)a, (unsigned long long)b, (unsigned long long)enc(same ? self(3) : pa / pb));
 		}
 		if (!g_order) return;
 		unsigned m = (pa == pb ? 1u : 0u) | (pa != pb ? 2u : 0u) | (pa < pb ? 4u : 0u) | (pa <= pb ? 8u : 0u) | (pa > pb ? 16u : 0u) | (pa >= pb ? 32u : 0u);
